@@ -39,6 +39,10 @@ let sign_of tbl : bytes -> bytes -> bytes option = fun key h ->
   if v = "err" then None else Some (bytes_of_hex v)
 let addr_of tbl : bytes -> bytes = fun key -> bytes_of_hex (lookup tbl (hex_of_bytes key))
 
+let render_signer = function Frontier -> "F" | Homestead -> "H" | EIP155 c -> "E:" ^ hex_of_n c
+let parse_opt s = if s = "nil" then None else Some (n_of_string s)
+let parse_cfg cid hb eb = { cc_chain_id = n_of_string cid; cc_homestead = parse_opt hb; cc_eip155 = parse_opt eb }
+
 let str_err = function EChain -> "chain" | ESig -> "sig" | ERecover -> "recover" | EPub -> "pub"
 let str_res = function Ok a -> "ok " ^ hex_of_bytes a | Err e -> "err " ^ str_err e | Panic -> "panic"
 
@@ -76,6 +80,15 @@ let handle (toks : string list) : string =
      | SOk t' -> "ok " ^ render_tx t'
      | SSignErr -> "err sign" | SSenderErr e -> "err sender-" ^ str_err e
      | SMismatch -> "err mismatch" | SPanic -> "panic")
+  | ["makesigner"; cid; hb; eb; num] -> render_signer (make_signer (parse_cfg cid hb eb) (n_of_string num))
+  | ["sender_at"; cid; hb; eb; num; t; tbl] ->
+    (* ApplyTransaction / AsMessage: types.MakeSigner(config, header.Number), then Sender *)
+    let sg = make_signer (parse_cfg cid hb eb) (n_of_string num) in
+    render_signer sg ^ " | " ^ str_res (sender_signer keccak256 (ecrec_of (parse_table tbl)) sg (parse_tx t))
+  | ["sender_pool"; cid; hb; eb; t; tbl] ->
+    (* TxPool.validateTx: types.Sender(pool.signer, tx) *)
+    let sg = pool_signer (parse_cfg cid hb eb) in
+    render_signer sg ^ " | " ^ str_res (sender_signer keccak256 (ecrec_of (parse_table tbl)) sg (parse_tx t))
   | ["quantity"; n] -> ascii_of_bytes (enc_quantity (n_of_string n))
   | ["dec_quantity"; maxlen; s] ->
     (* s: the JSON string content, hex-encoded ASCII *)
